@@ -192,6 +192,7 @@ def run(c):
             "s" + "mu" * 30 + "uu",                                                       # unchanged file between failures
             "su" + "m" * 20 + "u" + "m" + "uu" + "v" * 22 + "s" + "g" + "ss",
             "v" * 30 + "uu" + "mm" + "u" + "gg" * 12 + "su"]
+    hist += ["s" + "u" * 250, "s" * 130 + "m" * 3 + "s" * 125, "v" * 124 + "s" * 3 + "v" * 2]     # beyond 120 repetitions
     for _ in range(nl):
         h = ""
         for _ in range(rnd.randint(2, 9)):
@@ -213,6 +214,27 @@ def run(c):
         for ok_, out_ in zip(o["ok"], o["out"]):
             rows.append({"e": "obs", "ok": ok_, "out": name_of.get(out_, str(out_))})
         c.count("loop:" + h)
+    # the state notifications the loop emitted during each poll (read back from the service log): the identical
+    # (key, value) notification is emitted on change and then at most once per 120 repetitions, whatever its text says
+    nrows = []
+    for h, o in zip(hist, outs):
+        nrows.append({"e": "reset"})
+        for ch, em in zip(h, o["emit"]):
+            rs, re_, ve, vs = em
+            if ch in "su":
+                nrows += [{"e": "notify", "k": "k1", "v": "a", "emit": bool(rs)}, {"e": "notify", "k": "k2", "v": "a", "emit": bool(vs)}]
+            elif ch == "v":
+                nrows += [{"e": "notify", "k": "k1", "v": "a", "emit": bool(rs)}, {"e": "notify", "k": "k2", "v": "b", "emit": bool(ve)}]
+            else:
+                nrows.append({"e": "notify", "k": "k1", "v": "b", "emit": bool(re_)})
+    if not any(r.get("emit") for r in nrows):
+        raise util.ToolError("no state notification was seen in the service log (log format changed?)")
+    c.extra["monitor_loop_notifications"] = sum(1 for r in nrows if r["e"] == "notify")
+    okn, whyn, resn = validate_trace(c, "HealthRateTrace", "HealthRateTrace.cfg", nrows, "c20_r_loop", count=len(hist), timeout=900)
+    if not okn:
+        c.violation("the monitor loop's state notifications break the rate limit of C20 (%s): key k1 = ReadProxyAgentStatusFile, "
+                    "k2 = FileVersion, value a = success, b = error" % whyn, {"machine": "monitor-loop-notifications", "broken": whyn},
+                    {"histories": hist, "trace": nrows[:3000]})
     c.extra["monitor_loop_histories"] = len(hist)
     c.extra["monitor_loop_polls"] = sum(len(h) for h in hist)
     ok, why, res = validate_trace(c, "HealthTrace", "HealthTrace.cfg", rows, "c20_h_loop", count=len(hist), timeout=900)
